@@ -121,7 +121,7 @@ PROPERTIES = {
     },
     "C09": {
         "level": "other",
-        "rules": ["E1", "B4", "B5", "F1", "G3", "G5", "G6", "G7", "F13", "F16"],
+        "rules": ["E1", "B4", "B5", "F1", "G3", "G9", "G5", "G6", "G7", "F13", "F16", "F31"],
         "explanation": "Decided: no algorithm emits an empty op (E1); Replace merges runs and emits delete/replace before "
                        "insert, flushing in order (B5); both adapters are in the capture pipeline, Compact outside Replace (F1)."
                        "  Alternation after compaction and 'insertion sits at its latest position' are NOT examined.  Round 3: only an op tested to be Equal absorbs equal items (G7); merged same-kind ops grow by the right side (F13); the insert/delete slide-down arms are twins (F16); no stale op snapshot across list mutation (G5).",
@@ -129,7 +129,7 @@ PROPERTIES = {
     },
     "C10": {
         "level": "other",
-        "rules": ["F5", "B4", "B5", "G3", "G9", "G5", "G6", "G7", "F13", "F16"] +
+        "rules": ["F5", "B4", "B5", "G3", "G9", "G5", "G6", "G7", "F13", "F16", "F31"] +
                  a_rules(("algorithms/compact.rs", "algorithms/replace.rs", "types.rs")),
         "explanation": "Decided (structural parts only): no slot or side mix-up in any compaction arm or in Replace (A1-A5, A7), "
                        "helpers move start and length consistently (F5), Replace/Compact typestate (B5), Compact buffers exactly "
@@ -190,7 +190,7 @@ PROPERTIES = {
     },
     "C16": {
         "level": "other",
-        "rules": ["F9", "F26", ("F4", infile("text/inline.rs")), ("C1", infile("text/inline.rs", "text/mod.rs"))] +
+        "rules": ["F9", "F26", "F32", ("F4", infile("text/inline.rs")), ("C1", infile("text/inline.rs", "text/mod.rs"))] +
                  a_rules(("text/inline.rs",), A_ALL + ["A6"]) + TOKENIZER + [("A6", infile("text/abstraction.rs"))],
         "explanation": "Decided: tags/indices of assembled InlineChanges (F4, A4), side consistency of lookup/push_values use "
                        "(A3), byte-unit discipline of MultiLookup (A6), deadline plumbing of the inline diff (C1), emphasis only "
